@@ -187,6 +187,17 @@ fn main() {
             }
             recipes.push(rc);
         }
+        // directed, always-run: kernel modules containing the triggers of the acceptance-test checks
+        // (LKM_CWE of test/src/lib.rs: CWE252, CWE467, CWE476, CWE676), default selection, both configurations
+        for (k, cfg_lkm) in [true, false, true].iter().enumerate() {
+            let rc = Recipe { g: "gadget".into(), state: 7301 + 2 * k as u64, kind: Kind::Lkm,
+                gadgets: ["CWE467", "CWE676", "CWE252", "CWE476"].iter().map(|s| s.to_string()).collect(),
+                split: k == 2, extra: 0, cfg_lkm: *cfg_lkm, shared: false, markers: 3 };
+            let id = recipes.len();
+            jobs.push(Job { input_id: id, partial: None, tag: "lkm-default-acceptance-directed" });
+            jobs.push(Job { input_id: id, partial: Some("CWE467,CWE676".to_string()), tag: "lkm-partial-directed" });
+            recipes.push(rc);
+        }
         // directed, always-run: relocatable objects with exactly one / none / both kernel-module marker sections
         for (k, markers) in [1u8, 2, 0, 3].iter().enumerate() {
             let rc = Recipe { g: "gadget".into(), state: 7101 + 2 * k as u64, kind: Kind::Lkm,
